@@ -1301,6 +1301,8 @@ def prepare(ctx):
     ctx.matchers['c08_s3_undecodable_valueerror'] = m_s3_undecodable_valueerror
     ctx.matchers['c08_npy_permission_notfound'] = m_npy_permission_notfound
     ctx.matchers['c08_header_tokenerror'] = m_header_tokenerror
+    ctx.matchers['c08_s3_chunked_transfer_bare_incompleteread'] = (
+        lambda case, what: case.get('kind') == 'chunked-transfer' and 'IncompleteRead' in what)
     ctx.matchers['c08_npy_put_flush_error_swallowed'] = m_npy_put_flush_error_swallowed
     rc, out = common.run_cmd([sys.executable, os.path.join(common.VERIF, 'tools', 'extract_tables_c08.py')],
                              cwd=common.VERIF)
@@ -1330,12 +1332,106 @@ def all_cases(ctx, scale=1):
     return cases
 
 
+def chunked_transfer(ctx):
+    """An S3 endpoint that answers object requests with chunked transfer encoding (no Content-Length, a proxy in
+    front of the store): the complete body is the stored chunk; cut off inside a chunk, between two chunks or inside
+    the NPY header it is reported as a missing chunk (server glitch) or chunk-store error, never as data and never as
+    a bare transport exception."""
+    import io
+    import socket
+    import threading
+    from katdal.chunkstore import ChunkStoreError
+    from katdal.chunkstore_s3 import S3ChunkStore
+    arr = np.arange(100, dtype=np.uint8)
+    buf = io.BytesIO()
+    np.save(buf, arr)
+    body = buf.getvalue()
+    mode = {'cut': None, 'pieces': 1}
+
+    def serve(sock):
+        while True:
+            try:
+                c, _ = sock.accept()
+            except OSError:
+                return
+            try:
+                data = b''
+                while b'\r\n\r\n' not in data:
+                    d = c.recv(65536)
+                    if not d:
+                        break
+                    data += d
+                target = data.split(b'\r\n')[0].decode().split()[1]
+                if 'max-keys' in target or target.split('?')[0].rstrip('/').count('/') <= 1:
+                    xml = b'<?xml version="1.0"?><ListBucketResult><Contents><Key>x</Key></Contents></ListBucketResult>'
+                    c.sendall(b'HTTP/1.1 200 OK\r\nContent-Type: application/xml\r\nContent-Length: %d\r\n'
+                              b'Connection: close\r\n\r\n' % len(xml) + xml)
+                    continue
+                out = b''
+                n = mode['pieces']
+                step = -(-len(body) // n)
+                for i in range(0, len(body), step):
+                    piece = body[i:i + step]
+                    out += b'%x\r\n' % len(piece) + piece + b'\r\n'
+                out += b'0\r\n\r\n'
+                if mode['cut'] is not None:
+                    out = out[:mode['cut']]
+                c.sendall(b'HTTP/1.1 200 OK\r\nContent-Type: application/octet-stream\r\n'
+                          b'Transfer-Encoding: chunked\r\nConnection: close\r\n\r\n' + out)
+            except OSError:
+                pass
+            finally:
+                c.close()
+    sock = socket.socket()
+    sock.bind(('127.0.0.1', 0))
+    sock.listen(16)
+    port = sock.getsockname()[1]
+    threading.Thread(target=serve, args=(sock,), daemon=True).start()
+    bad = []
+    try:
+        total = len(body) + 40
+        cuts = [None, 0, 3, 5, 9, 60, 130, 131, 133, len(body) + 4, len(body) + 7] + \
+               [ctx.rng.randrange(1, total) for _ in range(ctx.q(6, 60))]
+        for pieces in (1, 3):
+            for cut in cuts:
+                mode['cut'], mode['pieces'] = cut, pieces
+                store = S3ChunkStore(f'http://127.0.0.1:{port}', timeout=(2, 2), retries=0)
+                case = dict(kind='chunked-transfer', cut=cut, pieces=pieces)
+                what = None
+                try:
+                    r = store.get_chunk('b/a', (slice(0, 100),), np.uint8)
+                    complete = cut is None
+                    if not np.array_equal(r, arr):
+                        what = f'chunked transfer encoding, body cut at {cut}: altered data returned'
+                    elif not complete and cut < len(body):
+                        what = f'chunked transfer encoding, body cut at byte {cut}: returned as data'
+                except ChunkStoreError as e:
+                    if cut is None:
+                        # not a clause of this property (nothing wrong is returned as data); it is what C09 calls a
+                        # good response that does not yield the stored chunk, noted here because the cause is the same
+                        ctx.tag('s3-chunked-transfer-complete-body-unreadable')
+                        ctx.advise(f'a complete body in chunked transfer encoding ({pieces} piece(s)) is reported as '
+                                   f'{type(e).__name__}: the stored chunk cannot be read through such an endpoint')
+                except Exception as e:   # noqa: BLE001
+                    what = (f'chunked transfer encoding, body cut at byte {cut} ({pieces} piece(s)): a bare '
+                            f'{type(e).__module__}.{type(e).__name__} escapes, which is neither a missing chunk nor a '
+                            f'chunk-store error')
+                ctx.tag('s3-chunked-transfer' + ('-complete' if cut is None else '-cut'))
+                ctx.count(('chunked-transfer', cut, pieces), cut is not None, sample={'kind': 'chunked-transfer', 'cut': cut})
+                if what:
+                    bad.append((case, what))
+    finally:
+        sock.close()
+    return bad
+
+
 def run(ctx):
     prepare(ctx)
     build = common.build_and_audit('C08', ctx.tier)
     env = Env()
     try:
         bad = evaluate(ctx, all_cases(ctx), env)
+        bad += chunked_transfer(ctx)
         if not bad and not build['build_ok']:
             bad = evaluate(ctx, all_cases(ctx, scale=4), env)
     finally:
@@ -1354,7 +1450,9 @@ def replay(ctx, rep):
     env = Env()
     try:
         c = dict(rep['case'])
-        if c.get('kind') == 'trunc' and 'offset' in c:
+        if c.get('kind') == 'chunked-transfer':
+            bad = [b for b in chunked_transfer(ctx) if b[0]['cut'] == c['cut'] and b[0]['pieces'] == c['pieces']]
+        elif c.get('kind') == 'trunc' and 'offset' in c:
             want = c['offset']
             c2 = {k: v for k, v in c.items() if k not in ('offset', 'total')}
             bad = [b for b in run_trunc_case(ctx, c2, env) if b[0]['offset'] == want]
